@@ -46,10 +46,9 @@ Record cin : Type := mkCin {
   ci_in : bool;                  (* POLLIN | POLLHUP *)
   ci_out : bool;                 (* POLLOUT *)
   ci_read : option text;         (* read(): Some [] = end of file, None = error *)
-  ci_wrote : option nat;         (* write(): bytes accepted, None = error *)
-  ci_flush_ok : bool             (* the blocking write of `quit` succeeds (false: EPIPE, the peer is gone) *)
+  ci_wrote : option nat          (* write(): bytes accepted, None = error *)
 }.
-Definition cin0 : cin := mkCin false false false None None true.
+Definition cin0 : cin := mkCin false false false None None.
 
 Record round : Type := mkRound {
   r_now : Z;                     (* gettimeofday during the pass (microseconds) *)
@@ -125,7 +124,7 @@ Section D.
     end.
 
   (* _handle_input: every complete line of c->from goes through _parse_input *)
-  Fixpoint handle_input (fuel : nat) (st : daemon) (i : nat) (flush_ok : bool) (acc : list sysev) : outcome (daemon * list sysev) :=
+  Fixpoint handle_input (fuel : nat) (st : daemon) (i : nat) (acc : list sysev) : outcome (daemon * list sysev) :=
     match fuel with
     | O => Ok (st, acc)
     | S f =>
@@ -136,19 +135,16 @@ Section D.
         | None => Ok (st, acc)
         | Some (line, rest) =>
           let '(cf', store', c', q) := parse_input expand_str ranged_sorted ranged_plain sorted (cconf_of st) (dm_store st) (dc x) line in
-          let x0 := set_dc c' (mkDcli (dc x) rest (dc_to x) (dc_nl x) (S (dc_lines x))) in
-          (* `quit`: _parse_input calls _handle_write at once, on a descriptor made blocking: everything queued
-             (the 101 line included) is written before the client is destroyed at the end of this pass *)
-          let quits := cl_quit c' && negb (cl_quit (dc x)) in
-          let x' := if quits && flush_ok then mkDcli (dc x0) (dc_from x0) [] (dc_nl x0) (dc_lines x0) else x0 in
-          let flushed := if quits && flush_ok then dc_to x0 else [] in
+          (* (since the repair of F37 `quit` no longer writes at once on a descriptor made blocking: the 101 line is
+             queued like any other output) *)
+          let x' := set_dc c' (mkDcli (dc x) rest (dc_to x) (dc_nl x) (S (dc_lines x))) in
           let tele := cl_tele (dc x) in
           let args := length (dm_store st) in
           match (match q with [] => Ok (dm_devs st) | _ => enq_all (dm_devs st) q (cl_id (dc x)) tele args end) with
           | Ok devs' =>
             handle_input f (mkDaemon (cf_nodes cf') (dm_aliases st) (dm_specs st) (dm_pipe st) devs'
-                                     (upd_nth (dm_clients st) i (fun _ => x')) (dm_seq st) store' (dm_version st) (dm_tel st)) i flush_ok
-                         (acc ++ match flushed with [] => [] | _ => [SysCliWrote (cl_id (dc x)) flushed] end)
+                                     (upd_nth (dm_clients st) i (fun _ => x')) (dm_seq st) store' (dm_version st) (dm_tel st)) i
+                         acc
           | Exit c s => Exit c s | Abort s => Abort s | MemErr s => MemErr s | Hang s => Hang s
           end
         end
@@ -170,16 +166,17 @@ Section D.
                   else x in
         let '(x2, w) := if ci_out ci then
                           match ci_wrote ci with
-                          | None => (set_quit x1, [])
+                          | None => (let y := set_quit x1 in mkDcli (dc y) (dc_from y) [] (dc_nl y) (dc_lines y), [])   (* cbuf_flush(c->to) *)
                           | Some n => (mkDcli (dc x1) (dc_from x1) (skipn n (dc_to x1)) (dc_nl x1) (dc_lines x1), firstn n (dc_to x1))
                           end
                         else (x1, []) in
         let st1 := mkDaemon (dm_nodes st) (dm_aliases st) (dm_specs st) (dm_pipe st) (dm_devs st)
                             (upd_nth (dm_clients st) i (fun _ => x2)) (dm_seq st) (dm_store st) (dm_version st) (dm_tel st) in
-        match handle_input (S (length (dc_from x2))) st1 i (ci_flush_ok ci) (match w with [] => [] | _ => [SysCliWrote (cl_id (dc x)) w] end) with
+        match handle_input (S (length (dc_from x2))) st1 i (match w with [] => [] | _ => [SysCliWrote (cl_id (dc x)) w] end) with
         | Ok (st2, evs) =>
           let dead := match nth_error (dm_clients st2) i with
                       | Some y => cl_quit (dc y) && (match cl_cmd (dc y) with None => true | Some _ => false end)
+                                 && (match dc_to y with [] => true | _ => false end)
                       | None => false end in
           Ok (st2, evs, dead)
         | Exit c s => Exit c s | Abort s => Abort s | MemErr s => MemErr s | Hang s => Hang s
@@ -368,7 +365,7 @@ Definition dev_fds (st : daemon) : nat := length (filter dv_has_fd (dm_devs st))
 Fixpoint kids_of (pipes : list bool) (devs : list device) : nat :=
   match devs with
   | [] => O
-  | d :: r => ((if hd false pipes && dv_has_fd d then 1 else 0) + kids_of (tl pipes) r)%nat
+  | d :: r => ((if hd true pipes && dv_has_fd d then 1 else 0) + kids_of (tl pipes) r)%nat
   end.
 Definition children (st : daemon) : nat := kids_of (dm_pipe st) (dm_devs st).
 (* descriptors beyond the listeners *)
